@@ -156,29 +156,31 @@ class H5netcdfArray(NetCDFFileMixin, FileArrayMixin, abstract.Array):
         dataset, address = self.open()
         dataset0 = dataset
 
-        groups, address = self.get_groups(address)
-        if groups:
-            dataset = self._group(dataset, groups)
+        try:
+            groups, address = self.get_groups(address)
+            if groups:
+                dataset = self._group(dataset, groups)
 
-        # Get the variable by netCDF name
-        variable = dataset.variables[address]
+            # Get the variable by netCDF name
+            variable = dataset.variables[address]
 
-        # Get the data, applying masking and scaling as required.
-        array = netcdf_indexer(
-            variable,
-            mask=self.get_mask(),
-            unpack=self.get_unpack(),
-            always_masked_array=False,
-            orthogonal_indexing=True,
-            copy=False,
-        )
-        array = array[indices]
+            # Get the data, applying masking and scaling as required.
+            array = netcdf_indexer(
+                variable,
+                mask=self.get_mask(),
+                unpack=self.get_unpack(),
+                always_masked_array=False,
+                orthogonal_indexing=True,
+                copy=False,
+            )
+            array = array[indices]
 
-        # Set the attributes, if they haven't been set already.
-        self._set_attributes(variable)
-
-        self.close(dataset0)
-        del dataset, dataset0
+            # Set the attributes, if they haven't been set already.
+            self._set_attributes(variable)
+        finally:
+            # Close the dataset, also when the data could not be got
+            self.close(dataset0)
+            del dataset, dataset0
 
         return array
 
